@@ -59,6 +59,23 @@ Theorem C19_reversed_tuple_key_bytes :
 Proof. exact reversed_tuple_key_bytes_proof. Qed.
 Print Assumptions C19_reversed_tuple_key_bytes.
 
+(* Every use, in the control plane, of a field of a kernel-mirror struct against a constant (comparison, switch
+   case, assignment, composite literal; integer literals and named constants alike) uses a declared value of the
+   corresponding C enumeration, and where the Go branch or the constant's name says which enumerator is meant,
+   that enumerator's value.  Exhaustive over the uses extracted from the current tree. *)
+Theorem C19_magic_numbers_agree : forallb magic_ok magic_uses = true.
+Proof. exact magic_numbers_agree_proof. Qed.
+Print Assumptions C19_magic_numbers_agree.
+
+(* conn_state.state: for every kernel history (FIN/RST seen or not) and every age, the janitor classifies the state
+   value the kernel stores as closing exactly when the kernel saw FIN/RST, hence applies the timeout of that class. *)
+Theorem C19_janitor_state_agrees :
+  forall (fin_seen : bool) (age_ns : N),
+    go_janitor_is_closing (c_state_after fin_seen) = fin_seen
+    /\ go_janitor_deletes (c_state_after fin_seen) age_ns = spec_janitor_deletes fin_seen age_ns.
+Proof. exact janitor_state_agrees_proof. Qed.
+Print Assumptions C19_janitor_state_agrees.
+
 (* LPM keys: every prefix in every Go representation gives the spec key; the kernel's lookup keys for a
    packet are the full-length spec keys of its addresses; a host prefix's key is byte-identical to the lookup key. *)
 Theorem C19_lpm_key_bytes :
